@@ -128,7 +128,7 @@ def parseLine (d : DSt) (ts : List String) : Parsed :=
       else if (ordOf m).isSome ∨ (ordOf ok).isSome ∨ d.syncNames.contains m ∨ d.syncNames.contains ok then
         bad "unknown-sync-looking-event" else nop "marker"
   | ["cwk", cv, m, r] =>
-      if r = "notified" ∨ r = "spurious" ∨ r = "timeout" then
+      if r = "notified" ∨ r = "spurious" ∨ r = "timeout" ∨ r = "late" then
         { (mk m (fun m => .acq m .X) "cv-wake" true) with syncNames := addSync (addSync d.syncNames m) cv }
       else bad "malformed-cwk"
   | ["cna", cv] => { (nop "notify") with syncNames := addSync d.syncNames cv }
